@@ -306,6 +306,73 @@ def rule_single_source(rep, repo, mod):
                 loc=ci.loc(), instance=qcls)
 
 
+def rule_scheduler_state_is_per_instance(rep, repo):
+  """R7: two schedulers in one process do not share their step counter (or
+  any other state the hooks update).  Syntax-tree rule over the classes of
+  qkeras/callbacks.py: an attribute that a method updates in place
+  (`self.x += ...`, `self.x[...] = ...`, `self.x.append(...)` and the like)
+  must not live in a class-level default that is a mutable value (a list /
+  dict / set literal, or any constructor call such as np.array(...)): an
+  in-place update of such a default changes it for every instance.  Plain
+  constants (numbers, None, strings, tuples) as class-level defaults are
+  fine - `self.x += 1` rebinds them on the instance."""
+  import ast
+  cb = repo.module("qkeras.callbacks")
+  n = 0
+  for cname, ci in sorted(cb.classes.items()):
+    mutable_defaults = {}
+    for st in ci.node.body:
+      if isinstance(st, (ast.Assign, ast.AnnAssign)) and st.value is not None:
+        tgts = st.targets if isinstance(st, ast.Assign) else [st.target]
+        if isinstance(st.value, (ast.List, ast.Dict, ast.Set, ast.Call,
+                                 ast.ListComp, ast.DictComp)):
+          for t in tgts:
+            if isinstance(t, ast.Name):
+              mutable_defaults[t.id] = st
+    updated = {}
+    for fn in ci.node.body:
+      if not isinstance(fn, ast.FunctionDef):
+        continue
+      assigned_here = {t.attr for x in ast.walk(fn) if isinstance(
+          x, ast.Assign) for t in x.targets if isinstance(t, ast.Attribute)
+                       and isinstance(t.value, ast.Name) and
+                       t.value.id == "self"}
+      for x in ast.walk(fn):
+        tgt = None
+        if isinstance(x, ast.AugAssign):
+          tgt = x.target
+        elif isinstance(x, ast.Assign) and isinstance(x.targets[0],
+                                                      ast.Subscript):
+          tgt = x.targets[0].value
+        elif isinstance(x, ast.Call) and isinstance(x.func, ast.Attribute) \
+            and x.func.attr in ("append", "extend", "update", "add",
+                                "setdefault", "pop", "clear", "assign_add"):
+          tgt = x.func.value
+        if isinstance(tgt, ast.Attribute) and isinstance(
+            tgt.value, ast.Name) and tgt.value.id == "self":
+          if fn.name == "__init__" or tgt.attr in assigned_here and \
+              fn.name == "__init__":
+            continue
+          updated.setdefault(tgt.attr, fn.name)
+    _, init = ci.find_method("__init__")
+    init_sets = set()
+    if init is not None:
+      init_sets = {t.attr for x in ast.walk(init) if isinstance(x, ast.Assign)
+                   for t in x.targets if isinstance(t, ast.Attribute) and
+                   isinstance(t.value, ast.Name) and t.value.id == "self"}
+    for attr, where in sorted(updated.items()):
+      n += 1
+      bad = attr in mutable_defaults and attr not in init_sets
+      rep.check(not bad, "R7", "%s::%s" % (cb.relpath, cname),
+                "state-shared-by-all-instances:" + attr,
+                "%s.%s is updated in place by %s() but lives in a class-level "
+                "default (%s) that __init__ does not replace: every %s in "
+                "the process shares it" % (
+                    cname, attr, where, ast.unparse(mutable_defaults[attr])
+                    if bad else "", cname), loc=cb.loc(ci.node))
+  return n
+
+
 def rule_variable_isolation(rep, repo, rule="R2"):
   """Every quantizer owns its noise factor: (a) two variable-backed
   quantizers that were given the SAME var_name, (b) a quantizer whose factor
@@ -904,6 +971,8 @@ def run(rep, repo, tier):
   rule_scheduler_run(rep, repo, tier)
   if rule_variable_isolation(rep, repo) < 6:
     raise AnalysisError("instance-count variable-isolation pairs")
+  if rule_scheduler_state_is_per_instance(rep, repo) < 1:
+    raise AnalysisError("instance-count scheduler state attributes")
   rep.require_instances("R6", 18)
   rep.require_instances("R1", 1500)
   rep.require_instances("R2", 10)
